@@ -411,9 +411,11 @@ func checkC10(c *Ctx, r *Report) {
 		"R1 per-exchange responder state: wherever handleHTTP is called inside a loop, the responder passed is allocated inside the same loop iteration (the responder accumulates headers / Content-Length / Transfer-Encoding that frame the next response)",
 		"R2 the tunnel loop and the plain path call the same handleHTTP; request-path code in package proxy never branches on the dynamic type of the responder",
 		"R3 the two responders agree on SetHeader (Set), AddHeader (Add) and SetHeaders (see C08.R3)",
+		"R4/R6 exactly one response per exchange keeps requests and responses paired on the tunnel: every path through processRequest/handleHTTP writes a response (R4, shared with C16) and no path writes a second one — where a callee may already have answered, the caller's later writes are reachable only for error classes that callee returns without having written (R6; %w / errors.Is classes followed)",
 	}
 	r.NotDec = []string{"TLS framing", "byte-level equality with plain proxying", "state inside net/http's ResponseWriter"}
 	li := BuildLocks(c)
+	checkAnswered(c, r, li, "C10.R4")
 	nLoopCalls, nCalls := 0, 0
 	for _, f := range li.Fns {
 		if originPkgPath(f) != proxyPkg {
